@@ -111,11 +111,14 @@ Contract(G_Q + ".__call__", props={"C18"},
          spec=lambda self, num_points, key: SI.gaussian_random_field(self, num_points, key))
 
 D_Q = "exponax.ic._diffused_noise.DiffusedNoise"
+from fractions import Fraction as _Fr  # noqa: E402
+
 Contract(D_Q + ".__call__", props={"C18"},
          cases=[Case(f"D={D},zero_mean={z},std_one={s},max_one={m}",
                      lambda e, D=D, z=z, s=s, m=m: ((_grf_self(e, IC.DiffusedNoise, D, z, s, m, lambda e: {"intensity": sym.real(e, "nu")}), sym.integer(e, "N", lo=1)), {"key": _key()}, {"no_div": NOTE}))
                 for D in DIMS for (z, s, m) in NORMS[:3]],
-         spec=lambda self, num_points, key: SI.diffused_noise(self, num_points, key))
+         spec=lambda self, num_points, key: SI.diffused_noise(self, num_points, key)
+         ).native_overrides = {"nu": _Fr(1, 200)}   # (native comparisons: a larger intensity flattens the field to rounding noise before it is normalised)
 
 
 # ----------------------------------------------------------------------- wrappers (abstract inner)
